@@ -246,12 +246,45 @@ func vfC30Config(rec *evid.Rec, pki *vfPKI, tc *TLSConfig, clientVers []uint16, 
 }
 
 func vfC30Rotation(rec *evid.Rec, pki *vfPKI) {
+	// The rotation step is "ReloadCertificates on the TLS settings returned by GetExportOptions".
+	// Scenarios vary WHEN those settings were obtained (after Listen, or before it), WHAT happened
+	// to the server between Listen and the rotation (nothing, or one of the runtime updates, each
+	// fed what the server itself reports), and rotate twice (100 -> 200 -> 100).
+	between := []string{"nothing", "UpdateExportOptions", "UpdateTuningOptions", "UpdatePolicyOptions", "GetExportOptions-called-earlier"}
+	for _, fetched := range []string{"after-Listen", "before-Listen"} {
+		for _, btw := range between {
+			vfC30RotationScenario(rec, pki, fetched, btw)
+		}
+	}
+}
+
+func vfC30RotationScenario(rec *evid.Rec, pki *vfPKI, fetched, btw string) {
+	name := "fetched=" + fetched + "/between=" + btw
+	evid.Journal("rotation " + name)
 	certPath, keyPath := filepath.Join(pki.dir, "live.pem"), filepath.Join(pki.dir, "live.key")
 	cp := func(src, dst string) { b, _ := os.ReadFile(src); os.WriteFile(dst, b, 0600) }
 	cp(pki.srvCert, certPath)
 	cp(pki.srvKey, keyPath)
-	n, s, err := vfC30Start(&TLSConfig{Enabled: true, CertFile: certPath, KeyFile: keyPath, MinVersion: tls.VersionTLS12, MaxVersion: tls.VersionTLS13})
+	fs := refs.New()
+	n, err := New(fs, ExportOptions{TLS: &TLSConfig{Enabled: true, CertFile: certPath, KeyFile: keyPath, MinVersion: tls.VersionTLS12, MaxVersion: tls.VersionTLS13}})
 	if err != nil {
+		rec.Infra("rotation setup: " + err.Error())
+		return
+	}
+	vfQuiet(n)
+	var early *TLSConfig
+	if fetched == "before-Listen" {
+		early = n.GetExportOptions().TLS
+	}
+	s, err := NewServer(ServerOptions{Hostname: "127.0.0.1", UseRecordMarking: true})
+	if err != nil {
+		rec.Infra("rotation setup: " + err.Error())
+		return
+	}
+	s.logger.SetOutput(io.Discard)
+	s.SetHandler(n)
+	if err := s.Listen(); err != nil {
+		n.Close()
 		rec.Infra("rotation setup: " + err.Error())
 		return
 	}
@@ -259,27 +292,61 @@ func vfC30Rotation(rec *evid.Rec, pki *vfPKI) {
 	port := s.GetPort()
 	done, _, serial, err := vfTLSNull(port, pki.roots, tls.VersionTLS12, tls.VersionTLS13, nil, true)
 	if !done || serial != 100 {
-		rec.Infra(fmt.Sprintf("rotation: initial handshake done=%v serial=%d err=%v", done, serial, err))
+		rec.Infra(fmt.Sprintf("rotation %s: initial handshake done=%v serial=%d err=%v", name, done, serial, err))
 		return
 	}
-	cp(pki.srv2Cert, certPath)
-	cp(pki.srv2Key, keyPath)
-	tlsOpts := n.GetExportOptions().TLS
-	if tlsOpts == nil {
-		rec.Violate("C30/rotation/GetExportOptions-returns-no-TLS-settings", "", nil)
-		return
+	switch btw {
+	case "UpdateExportOptions":
+		o := n.GetExportOptions()
+		o.TransferSize = 32768
+		if err := n.UpdateExportOptions(o); err != nil {
+			rec.Infra("rotation " + name + ": " + err.Error())
+			return
+		}
+	case "UpdateTuningOptions":
+		n.UpdateTuningOptions(func(t *TuningOptions) { t.TransferSize = 32768 })
+	case "UpdatePolicyOptions":
+		p := *n.policy.Load()
+		p.MaxFileSize = 1 << 30
+		if err := n.UpdatePolicyOptions(p); err != nil {
+			rec.Infra("rotation " + name + ": " + err.Error())
+			return
+		}
+	case "GetExportOptions-called-earlier":
+		_ = n.GetExportOptions()
+		_ = n.GetExportOptions().TLS
 	}
-	if err := tlsOpts.ReloadCertificates(); err != nil {
-		rec.Violate("C30/rotation/ReloadCertificates-failed", err.Error(), nil)
-		return
+	want := []struct {
+		cert, key string
+		serial    int64
+	}{{pki.srv2Cert, pki.srv2Key, 200}, {pki.srvCert, pki.srvKey, 100}}
+	for round, w := range want {
+		cp(w.cert, certPath)
+		cp(w.key, keyPath)
+		tlsOpts := early
+		if tlsOpts == nil {
+			tlsOpts = n.GetExportOptions().TLS
+		}
+		if tlsOpts == nil {
+			rec.Violate("C30/rotation/GetExportOptions-returns-no-TLS-settings", name, nil)
+			return
+		}
+		if err := tlsOpts.ReloadCertificates(); err != nil {
+			rec.Violate("C30/rotation/ReloadCertificates-failed", name+": "+err.Error(), nil)
+			return
+		}
+		rec.Eval(1)
+		done, _, serial, err = vfTLSNull(port, pki.roots, tls.VersionTLS12, tls.VersionTLS13, nil, true)
+		if !done {
+			rec.Violate("C30/rotation/handshake-fails-after-reload", fmt.Sprintf("%s round %d: %v", name, round+1, err), nil)
+		} else if int64(serial) != w.serial {
+			sig := "C30/rotation/new-handshake-presents-old-certificate"
+			if fetched != "after-Listen" || btw != "nothing" {
+				sig += "/" + name
+			}
+			rec.Violate(sig, fmt.Sprintf("%s round %d: after overwriting the certificate files and calling ReloadCertificates() on the TLS settings returned by GetExportOptions, a new handshake presents serial %d, the reloaded certificate has %d", name, round+1, serial, w.serial), nil)
+		}
+		rec.Distinct(fmt.Sprintf("rotation|%s|round=%d|reloaded-served=%v", name, round+1, int64(serial) == w.serial))
 	}
-	rec.Eval(1)
-	done, _, serial, err = vfTLSNull(port, pki.roots, tls.VersionTLS12, tls.VersionTLS13, nil, true)
-	if !done {
-		rec.Violate("C30/rotation/handshake-fails-after-reload", fmt.Sprint(err), nil)
-	} else if serial != 200 {
-		rec.Violate("C30/rotation/new-handshake-presents-old-certificate", fmt.Sprintf("after overwriting the certificate files and calling GetExportOptions().TLS.ReloadCertificates(), a new handshake presents serial %d (old certificate is 100, reloaded one is 200)", serial), nil)
-	}
-	rec.Distinct(fmt.Sprintf("rotation|serial-after-reload=%d", serial))
-	rec.Sample(map[string]any{"rotation": "serial 100 -> files overwritten with serial 200 -> ReloadCertificates -> new handshake", "serial_seen": serial})
+	rec.Sample(map[string]any{"rotation": name + ": serial 100 -> files overwritten (200) -> ReloadCertificates -> handshake -> files overwritten (100) -> ReloadCertificates -> handshake"})
 }
